@@ -2,11 +2,10 @@ from vlib import Job, REPO
 TVL = ['-include', 'nolog.h', REPO + '/common/iovector.cpp']
 
 META = dict(
-    bounds='path strings of length <= N over the alphabet {/, ., a, NUL} (5 quick, 8 thorough), every one of the 30 one-path operations and the 2 two-path operations '
+    bounds='path strings of length <= N of arbitrary bytes (5 quick, 8 thorough), every one of the 30 one-path operations and the 2 two-path operations '
            '(two strings of length <= 3 / 4), base "b" and "b/"; length limit with symbolic base length 1..PATH_MAX-2',
     outside='longer paths; symlinks inside the underlay (the property is about lexical resolution); symlink() target string (file content, not a path of the sub-filesystem)',
-    assumptions=['bytes other than / . NUL are equivalent to "a" for the code under test (it compares only against those three)',
-                 'logging macros have empty bodies', 'NDEBUG build: assert() compiled out'],
+    assumptions=[                 'logging macros have empty bodies', 'NDEBUG build: assert() compiled out'],
 )
 SRC = 'C20/h_subfs.cpp'
 SH = ['libc.c']
@@ -24,7 +23,7 @@ def jobs(tier):
             desc='stat, base given with trailing slash', bounds='path length <= %d' % n),
         Job('twopath', SRC, 'harness_twopath', unwindset=US(n2), defines=['PLEN=%d' % n2, 'PLEN2=%d' % n2, 'SMALL_PATH_MAX=32', 'OPLO=0', 'OPHI=0'], unwind=n2 + 3, shims=SH, ir2c=MAP, tv=True, tv_link=TVL, timeout=1500 if q else 7000,
             desc='rename/link, two symbolic paths', bounds='path lengths <= %d' % n2),
-        Job('lenlimit', SRC, 'harness_lenlimit', defines=['PLEN=%d' % n2, 'PLEN2=%d' % n2, 'SMALL_PATH_MAX=32', 'OPLO=0', 'OPHI=0'], unwind=n2 + 3, shims=SH, ir2c=MAP, timeout=1500,
+        Job('lenlimit', SRC, 'harness_lenlimit', unwindset=['verif_memcpy_n.0:34'], defines=['PLEN=%d' % n2, 'PLEN2=%d' % n2, 'SMALL_PATH_MAX=32', 'OPLO=0', 'OPHI=0'], unwind=n2 + 3, shims=SH, ir2c=MAP, timeout=1500,
             desc='PathCat length check, symbolic base length', bounds='PATH_MAX shrunk to 32, base length 1..30, path length <= %d' % n2),
     ]
     if q: J = [j for j in J if j.name != 'onepath_baseslash']
